@@ -76,4 +76,8 @@ theorem minTransferFull_dist (light : String → Bool) (p n : Int) (b : T) (hp :
   simp only [hp', hr', Bool.false_eq_true, if_false]
   exact (fullKids_dist light p n b.kids 0 ⟨p - 1, [], []⟩).2.1
 
+theorem zip_map_self {α β : Type} (g : α → β) : ∀ (l : List α), List.zip l (l.map g) = l.map (fun a => (a, g a))
+  | [] => rfl
+  | a :: l => by simp [zip_map_self g l]
+
 end Gotree.C10
